@@ -146,6 +146,10 @@ func (s *Snapshot) Canon() string {
 				// converters / bitmask pointers: covered by the state above
 			}
 		}
+		if j.Gate == "begin" && j.InputDigest != "" {
+			// what a started job was handed determines what it will deliver
+			sb.WriteString(" in{" + strings.ReplaceAll(j.InputDigest, "\n", "; ") + "}")
+		}
 		sb.WriteString("\n")
 	}
 	var vn []string
